@@ -507,7 +507,16 @@ impl LazySeq {
         drop(state);
 
         if let Some(gen) = genfn {
-            let obj = gen.call0(py)?;
+            let obj = match gen.call0(py) {
+                Ok(obj) => obj,
+                Err(e) => {
+                    // The generator raised: put it back so the exception does not leave
+                    // the sequence stuck in the Computing state (which reads as empty).
+                    let mut state = mutex.borrow_mut();
+                    *state = LazySeqState::Initialized(gen);
+                    return Err(e);
+                }
+            };
             let mut state = mutex.borrow_mut();
             *state = LazySeqState::Computed(obj.clone_ref(py));
             Ok(obj.clone_ref(py))
